@@ -26,6 +26,7 @@ def run (line : String) : String :=
         | "C11" :: _ => judgeC11 o
         | "C12" :: _ => judgeC12 o
         | "C12cons" :: r :: init => judgeC12Conservation o (parseNat! r) (init.filterMap String.toInt?)
+        | "C13" :: ps => judgeC13 o (ps.map (fun s => if s == "inf" then none else some (parseRat s)))
         | "C14" :: _ => judgeC14 o
         | "C15" :: st :: _ => judgeC15 o (parseRat st)
         | "C20" :: n :: _ => judgeC20 o (parseNat! n)
